@@ -76,7 +76,13 @@ pub fn sanitize(s: &str) -> String {
                 i = j;
             } else if power {
                 // something else follows: give the operator a small exponent of its own
-                out.push_str("2 ");
+                // (counted against the same product bound)
+                if product.saturating_mul(2) > 1000 {
+                    out.push_str("1 ");
+                } else {
+                    product *= 2;
+                    out.push_str("2 ");
+                }
             }
             continue;
         }
@@ -176,6 +182,7 @@ fn soup_token() -> impl Strategy<Value = String> {
         4 => (0u32..1000).prop_map(|n| n.to_string()),
         2 => gen::lit(LitCfg { max_int_digits: 6, max_frac_digits: 4, max_exp: 999, allow_percent: true, allow_neg: true, allow_plus: true, allow_exotic: true }).prop_map(|l| l.text),
         1 => Just("0".to_string()),
+        1 => prop_oneof![Just("-273.15"), Just("-459.67"), Just("273.15"), Just("32"), Just("-40"), Just("0.0"), Just("-0"), Just("1"), Just("100%")].prop_map(|s| s.to_string()),
     ];
     let unit = any::<u16>().prop_map(|i| {
         let w = words();
